@@ -13,7 +13,8 @@ GLUE_PREAMBLE = ""     # C04 provides d_dtree
 ASSUMPTIONS = [
     "a presentation = permuted rule list, permuted node positions and edge order inside every rule, permuted label indices (label-table insertion order), random label names (hash order of sets), explicit/implicit/mixed ids, permuted domain values together with the factor axes",
     "each presentation's results are mapped back to the canonical indexing and judged in Coq against the canonical grammar's model (C01/C02 check functions); the Viterbi derivation is judged on the presentation itself (C04 check function)",
-    "gradients: on a subset of the grammars (weights made strictly positive) every presentation's gradient is judged by C03's dual-number check on the presentation itself; by C12_presentation (at the dual semiring) the derivative is invariant",
+    "gradients: on a subset of the grammars (weights made strictly positive) every presentation's gradient is judged by C03's dual-number check on the presentation itself; by C12_grad_presentation / C12_dual_presentation (C12_presentation at the dual semiring) the derivative of every Kleene iterate with respect to the moved weight entry is invariant, and so is the reverse accumulation of non-recursive grammars (C12_backward_nonrec_presentation)",
+    "recursive grammars: C12_lfp_presentation / C12_lfp_value_presentation / C12_enclosure_presentation: least fixed points and certified enclosures of G and of any presentation correspond (iff), so judging the mapped-back result against the canonical grammar's C02 enclosure is judging the presentation's own least fixed point; Viterbi: C12_tree_presentation, C12_viterbi_derivation_presentation, C12_viterbi_optimum_presentation",
 ]
 
 def run(tier, seed):
@@ -140,9 +141,9 @@ def run(tier, seed):
                kernel_reevaluated=nk,
                samples=[(nonrec_meta["real"] or rec_meta["real"] or [None])[0]],
                open_items=[
-                   "C12_model_perm beyond the Kleene iterates for recursive grammars: C12_presentation holds for every iterate k of any grammar, but its composition with C02 (least fixed point), C09 (elimination order of the linear/Newton solves), C04 (weight of the Viterbi derivation) and C03 (gradients) is not stated as Coq theorems of C12 (see notes/C12P.md)",
-                   "C12_scc_order_irrelevant covers singleton non-recursive components only (sum_products_nonrec); order irrelevance for components solved iteratively is open",
-                   "C12_model_presentation assumes wf_grammar of the presented grammar (the relation `relabelled` deliberately leaves unused table positions of the presentation unconstrained); node/edge ids and label names are below the positional model (covered by the metamorphic runs only)",
+                   "C09 part of C12_model_perm: independence of the linear/Newton solves from the elimination order is C09's/C02's theorem (C02_linear_is_least_fixed_point holds for ANY elimination order; C12_scc_runs_presentation composes it through `exact_run`), but Newton's iterates themselves on a presentation are not related step by step; C12_tree_presentation gives an image derivation for every derivation of G (same weight, depth) but not the converse map G' -> G as a function (only domination: C12_optimal_derivation_presentation)",
+                   "C12_scc_order_irrelevant (code-shaped driver sum_products_nonrec) covers singleton non-recursive components; for components of any size C12_scc_order_irrelevant_exact proves order irrelevance at the level of exact_run (each component solved exactly, given a global least fixed point), not for the iterative code itself",
+                   "C12_model_presentation, C12_scc_runs_presentation, C12_viterbi_optimum_presentation and C12_backward_nonrec_presentation assume wf_grammar of the presented grammar (the relation `relabelled` deliberately leaves unused table positions of the presentation unconstrained); node/edge ids and label names are below the positional model (covered by the metamorphic runs only)",
                    "the harness transform gen.present is trusted to be an instance of the Coq relation `presents` (mirrored by relabel_grammar / permute_nodes / Permutation, not checked per generated case)"])
     return cov, violations
 
@@ -190,7 +191,7 @@ def replay(path):
 
 MANIFEST = dict(
     level="proof",
-    text="Coq: the definition of the sum-product (sum over derivation trees; Kleene iterates) is invariant under permuting the rule list, the edge list and the node numbering of every rule, and equivariant under renumbering edge/node labels and permuting the values of every domain together with the factor axes (each separately and composed: C12_presentation; carried to tree_sum, to the sum over all derivations of non-recursive grammars and to the code-shaped driver with any dependency-respecting component order: C12_model_presentation, C12_scc_order_irrelevant), in every commutative semiring, and C01/C02 tie the code's result to that definition. Metamorphic correspondence: several random presentations of each generated FGG (rule/node/edge order, label-table order, names, id style, domain-value permutations) are run through sum_products / viterbi and every result, mapped back, is judged in Coq against the canonical grammar's model.",
+    text="Coq: the definition of the sum-product (sum over derivation trees; Kleene iterates) is invariant under permuting the rule list, the edge list and the node numbering of every rule, and equivariant under renumbering edge/node labels and permuting the values of every domain together with the factor axes (each separately and composed: C12_presentation; carried to tree_sum, to the sum over all derivations of non-recursive grammars and to the code-shaped driver with any dependency-respecting component order: C12_model_presentation, C12_scc_order_irrelevant), in every commutative semiring, and C01/C02 tie the code's result to that definition. Recursive grammars: one application of the equations commutes with re-presentation at arbitrary environments (C12_step_presentation), hence x is the least fixed point / [lo,hi] a certified enclosure of G iff the re-indexed x / [lo,hi] is one of every presentation G' (C12_lfp_presentation(_all), C12_lfp_value_presentation, C12_enclosure_presentation, C12_enclosure_run_presentation, C12_scc_runs_presentation; Bool/Real/Viterbi instances). Derivations: the presentation map on derivation trees sends well-formed derivations to well-formed derivations of the same weight and depth (C12_tree_map_sim, C12_tree_presentation); in the Viterbi semiring the image of an optimal derivation is optimal and the optimum is the same (C12_viterbi_derivation_presentation, C12_viterbi_optimum_presentation). Gradients: dual-number derivatives of every Kleene iterate w.r.t. the moved weight entry and the reverse accumulation of non-recursive grammars are invariant (C12_grad_presentation, C12_backward_nonrec_presentation). Metamorphic correspondence: several random presentations of each generated FGG (rule/node/edge order, label-table order, names, id style, domain-value permutations) are run through sum_products / viterbi and every result, mapped back, is judged in Coq against the canonical grammar's model.",
     note="Trusted: Coq kernel, extraction cross-checked by vm_compute, the harness's presentation transform and back-mapping; Python hash-order variation is induced by random label names within one interpreter.",
     technique="Coq invariance theorems + metamorphic model/implementation correspondence",
     design_ref="DESIGN.md section 6, C12")
